@@ -318,7 +318,7 @@ def run(chk, tier):
                   for i in range(ndummy)]
     # a chain of three proofs is always part of the replay; two base-case variants (all-zero map / a start value)
     long3 = sorted([h for h in hist4 if h[2]["expect"]["counter"] == 3], key=lambda h: json.dumps(h, sort_keys=True))
-    hs = [long3[rnd.randrange(len(long3))]] + pick_histories(list(hist4), rnd, 40 if thorough else 8)
+    hs = [long3[rnd.randrange(len(long3))]] + pick_histories(list(hist4), rnd, 40 if thorough else 5)
     if thorough:
         hs += pick_histories(list(hist5), rnd, 12)
     # links whose embedded verifier data differ in exactly one component: the digest, or one cap element (entries and
